@@ -161,6 +161,9 @@ func (s *strConvAccErr) ParseSegStatusCodes(key, val string) []SegStatusCodes {
 		if codes[i].Cycle <= 0 {
 			s.err = fmt.Errorf("val=%q for key %q is not a valid. cycle is too small", val, key)
 		}
+		if codes[i].Cycle > math.MaxInt32 { // the cycle is multiplied with the media timescale
+			s.err = fmt.Errorf("val=%q for key %q is not a valid. cycle is too big", val, key)
+		}
 		if codes[i].Rsq < 0 {
 			s.err = fmt.Errorf("val=%q for key %q is not a valid. rsq is too small", val, key)
 		}
